@@ -62,7 +62,7 @@ pub fn alphabet(size: u8) -> Vec<Tx> {
 	a
 }
 
-fn scenario(name: &str, size: u8, n: usize, x: usize, crash: Option<CrashCfg>) -> Scenario {
+pub fn scenario(name: &str, size: u8, n: usize, x: usize, crash: Option<CrashCfg>) -> Scenario {
 	let mut spec = ColSpec::hash();
 	spec.uniform = true;
 	let mut cfg = Config::new(vec![spec]);
